@@ -98,8 +98,8 @@ Definition judge_tile (t : mtext) (W H shrink border : Z) (obsN obsI : list sexp
     else if negb (inversion_ok W H dn di) then fail "c18-inversion" []
     else if negb (colours_ok t pixc bckg) then fail "c18-colour" [I pixc; I bckg]
     else if negb (match rgb with B bs => rgb_ok W H dn pixc bckg bs | _ => true end) then fail "c18-colour" [sym "rgb"]
-    else if negb (oneline_ok t W H shrink border dn swT lh sh) then fail "c18-centre" [I 1]
-    else if negb (twoline_ok t W H shrink border dn sw1 sw2 lh sh) then fail "c18-centre" [I 2]
+    else if negb (oneline_ok t W H shrink border dn) then fail "c18-centre" [I 1]
+    else if negb (twoline_ok t W H shrink border dn) then fail "c18-centre" [I 2]
     else if negb ((filled =? 1) && (kept =? 1)) then fail "c18-mutation" [I filled; I kept]
     else
       (* ---- correspondence with the model ---- *)
